@@ -126,6 +126,13 @@ func (w *world) cachedOpt(o poptd) op.Option {
 	return v
 }
 
+// a provider must be told to accept the algorithm its own storage signs with (the verifiers' default is the
+// sha256 family only): fresh private option values, like the logger option
+func ownAlgOpts() []op.Option {
+	return []op.Option{op.WithAccessTokenVerifierOpts(op.WithSupportedAccessTokenSigningAlgorithms(sigAlgNames()...)),
+		op.WithIDTokenHintVerifierOpts(op.WithSupportedIDTokenHintSigningAlgorithms(sigAlgNames()...))}
+}
+
 func newProvider(i, stor int, opts []poptd, variant int) opd {
 	return newProviderCaps(i, stor, opts, variant, 7, false)
 }
@@ -147,8 +154,10 @@ func newProviderCaps(i, stor int, opts []poptd, variant, caps int, lists bool) o
 		class: "NewProvider", sub: fmt.Sprintf("opts%d-v%d-caps%d-lists=%v", min(len(opts), 3), variant, caps, lists),
 		run: func(w *world) {
 			st := opfix.NewStd()
+			st.Signing = signingFor(w.cfg.sigAlg, 1)
+			addClients(st)
 			w.stores[stor] = st
-			oo := []op.Option{op.WithLogger(quiet)}
+			oo := append([]op.Option{op.WithLogger(quiet)}, ownAlgOpts()...)
 			for _, o := range opts {
 				oo = append(oo, w.cachedOpt(o)) // the SAME option value whenever the same option is used again in this run
 			}
@@ -182,8 +191,10 @@ func newLegacyCaps(i, stor, caps int) opd {
 	return opd{coq: fmt.Sprintf("(NewLegacyServer %d 6)", i), kind: "legacy", inst: i, class: "NewLegacyServer", sub: fmt.Sprintf("register-caps%d", caps),
 		run: func(w *world) {
 			st := opfix.NewStd()
+			st.Signing = signingFor(w.cfg.sigAlg, 1)
+			addClients(st)
 			w.stores[stor] = st
-			p, err := op.NewProvider(provCfg(), capStorage(st, caps), op.StaticIssuer(opfix.Issuer), op.WithLogger(quiet))
+			p, err := op.NewProvider(provCfg(), capStorage(st, caps), op.StaticIssuer(opfix.Issuer), append([]op.Option{op.WithLogger(quiet)}, ownAlgOpts()...)...)
 			if err != nil {
 				return
 			}
@@ -650,7 +661,7 @@ func ksVerify(i, c, tn int) opd {
 		}
 		acc := 0
 		for _, t := range []int{1, 2} {
-			jws, err := jose.ParseSigned(w.tokensT(t).id, []jose.SignatureAlgorithm{jose.ES256, jose.RS256})
+			jws, err := jose.ParseSigned(w.tokensT(t).id, sigAlgs)
 			if err != nil {
 				return []int{98}
 			}
@@ -668,7 +679,7 @@ func ksVerify(i, c, tn int) opd {
 		if !ok {
 			return
 		}
-		jws, err := jose.ParseSigned(w.tokensT(tn).id, []jose.SignatureAlgorithm{jose.ES256, jose.RS256})
+		jws, err := jose.ParseSigned(w.tokensT(tn).id, sigAlgs)
 		if err != nil {
 			return
 		}
